@@ -1348,14 +1348,20 @@ func c09R4(c *Ctx, r *Report, rule string) {
 				}
 				// inside a closure the socket is the closure's parameter: map to the go site's argument
 				p, isParam := arg.(*ssa.Parameter)
-				if !isParam || f.Parent() == nil {
+				if f.Parent() == nil {
 					found, good, detail = true, false, "servePacket is called synchronously in "+fname(f)
 					continue
+				}
+				if !isParam {
+					check(arg, ci) // a captured variable: followed to what the enclosing function bound
 				}
 				started := false
 				for _, pci := range callsIn(f.Parent()) {
 					if closureOf(pci.Common().Value) == f {
-						idx := paramIndex(f, p)
+						idx := -1
+						if isParam {
+							idx = paramIndex(f, p)
+						}
 						if idx >= 0 && idx < len(pci.Common().Args) {
 							check(pci.Common().Args[idx], pci)
 						}
